@@ -56,6 +56,18 @@ Proof. exact (check_chain_safe C gen_ok). Qed.
 Theorem C02_chain_covers_ini_values : s_ini_max_line C <= s_fname_max C + 2 /\ s_default_chain_len C <= s_fname_max C.
 Proof. vm_compute. split; discriminate. Qed.
 
+(** the only production caller hands check_chain a value that came through ini.c (or the compiled-in default): every value any
+    configuration file can carry for ANY key is a chain on which the filter name / argument buffers are safe.  The bound that makes the
+    unchecked copy into filterName[] unreachable is  INI_MAX_LINE - 2 <= SNOOPY_FILTER_NAME_MAX_SIZE  (raising INI_MAX_LINE breaks [gen_ok]) *)
+Theorem C02_ini_values_are_safe_chains : forall fknown fcall, (forall n a, nonul n -> nonul a -> exists r, fcall n a = Ok r) ->
+    forall handler file, exists st, ini_parse C handler file = Ok st /\
+      Forall (fun t => exists r, check_chain C fknown fcall (snd t) = Ok r) (i_calls st).
+Proof.
+  intros fknown fcall Hf handler file. destruct (ini_parse_safe C gen_ok handler file) as [st [E H]]. exists st. split; [exact E|].
+  eapply Forall_impl; [|exact H]. intros [[s n] v] (_ & _ & Hv & Hl & _). cbn [snd].
+  apply (check_chain_safe C gen_ok fknown fcall Hf v Hv). destruct C02_chain_covers_ini_values as [B _]. lia.
+Qed.
+
 Theorem C02_csv_safe : forall raw s, cstr raw 0 = Ok s ->
     exists raw' ptrs argc, csv_to_arglist C raw = Ok (raw', ptrs, argc) /\ cap raw' = cap raw /\ argc <= count_byte COMMA s + 1 /\
       forall i, i < argc -> exists p f, sl_get ptrs i = Ok p /\ cstr raw' p = Ok f.
@@ -178,6 +190,7 @@ Print Assumptions C02_append_safe.
 Print Assumptions C02_expand_safe.
 Print Assumptions C02_expand_refines.
 Print Assumptions C02_check_chain_safe.
+Print Assumptions C02_ini_values_are_safe_chains.
 Print Assumptions C02_csv_safe.
 Print Assumptions C02_uid_filter_args_safe.
 Print Assumptions C02_spawns_parse_safe.
